@@ -1,24 +1,24 @@
 \* generated by lib/gen_cfgs.py from lib/props.py - do not edit
 SPECIFICATION Spec
 CONSTANTS
-  N = 2
+  N = 3
   NS = 1
   NP = 0
-  NW = 1
-  FIN = FALSE
+  NW = 0
+  FIN = TRUE
   WEAK = TRUE
   DBG = TRUE
   MAXRC = 100
   MaxRoots = 2
-  MaxWRoots = 2
-  MaxOps = 6
+  MaxWRoots = 0
+  MaxOps = 7
   MaxFaults = 1
   MaxTraceK = 2
   BUG_STALE_TC = FALSE
   BUG_NESTED_FLAGS = FALSE
-  OPS = {"clone", "collect", "downgrade", "drop", "dropw", "new", "set", "setw", "unwrap", "upgrade", "upgradef"}
+  OPS = {"clone", "collect", "drop", "new", "put", "set", "setcfg"}
   AUTOF = TRUE
-  AUTO0 = FALSE
+  AUTO0 = TRUE
   SZ = 152
 INVARIANT NoViolation
 INVARIANT StructInv
